@@ -116,6 +116,52 @@ Theorem c17_netstat_line_gen : forall lead c0 sp1 c1 sp2 c2 rest ip w0 maskw,
 Proof. exact netstat_line_gen. Qed.
 Print Assumptions c17_netstat_line_gen.
 
+(* (5b) Windows `route PRINT -4` (sys.platform == 'win32'): destination, contiguous
+        netmask of width w < 32, then " On-link " (blanks before it optional, anything
+        ASCII behind it): the scanner yields the canonical network.  Host routes
+        (netmask 255.255.255.255), destinations starting with 127. / 0. / 224. /
+        169.254. and lines without " On-link " (routes through a gateway, headers,
+        the IPv6 part) yield no route. *)
+Theorem c17_windows_line : forall lead ip sp1 w sp2 rest, ip < 2 ^ 32 -> w < 32 ->
+  forallb is_space_s lead = true -> spaces sp1 -> forallb is_space_s sp2 = true -> all_ascii rest = true ->
+  win_skip (dotted_quad ip) = false ->
+  scan_line route_windows
+    (lead ++ dotted_quad ip ++ sp1 ++ dotted_quad ((2 ^ w - 1) * 2 ^ (32 - w)) ++ sp2 ++ s_onlink ++ rest) =
+  Ok (Some (mkRoute AF_INET (dotted_quad (network ip w)) (Z.of_N w))).
+Proof. exact windows_line. Qed.
+Print Assumptions c17_windows_line.
+
+(* general two-column form (any netmask value, abbreviated destinations) *)
+Theorem c17_windows_line_gen : forall lead c0 sp1 c1 sp2 rest ip w0 maskw,
+  forallb is_space_s lead = true -> tokn c0 -> spaces sp1 -> tokn c1 -> forallb is_space_s sp2 = true ->
+  all_ascii (lead ++ c0 ++ sp1 ++ c1 ++ sp2 ++ s_onlink ++ rest) = true ->
+  bytes_eqb c1 s_bcast = false -> win_skip c0 = false ->
+  ipmatch c0 = Ok (Some (ip, w0)) -> ipmatch c1 = Ok maskw ->
+  (Z.min w0 (maskbits maskw) <= 32)%Z ->
+  scan_line route_windows (lead ++ c0 ++ sp1 ++ c1 ++ sp2 ++ s_onlink ++ rest) =
+  Ok (Some (mkRoute AF_INET
+             (dotted_quad (network ip (Z.to_N (Z.min w0 (maskbits maskw)))))
+             (Z.min w0 (maskbits maskw)))).
+Proof. exact windows_line_gen. Qed.
+Print Assumptions c17_windows_line_gen.
+
+Theorem c17_windows_skipped :
+  (forall line, contains s_onlink line = false -> scan_line route_windows line = Ok None) /\
+  (forall lead c0 sp1 c1 sp2 rest,
+     forallb is_space_s lead = true -> tokn c0 -> spaces sp1 -> tokn c1 -> forallb is_space_s sp2 = true ->
+     bytes_eqb c1 s_bcast = true \/ win_skip c0 = true ->
+     scan_line route_windows (lead ++ c0 ++ sp1 ++ c1 ++ sp2 ++ s_onlink ++ rest) = Ok None) /\
+  (forall ip, ip < 2 ^ 32 ->
+     win_skip (dotted_quad ip) =
+     (ip / 16777216 =? 127) || (ip / 16777216 =? 0) || (ip / 16777216 =? 224) ||
+     ((ip / 16777216 =? 169) && ((ip / 65536) mod 256 =? 254))) /\
+  (forall w, w < 32 -> bytes_eqb (dotted_quad ((2 ^ w - 1) * 2 ^ (32 - w))) s_bcast = false).
+Proof.
+  split; [exact windows_no_onlink|]. split; [exact windows_line_skipped|].
+  split; [exact win_skip_spec|exact netmask_not_bcast].
+Qed.
+Print Assumptions c17_windows_skipped.
+
 (* (6) Filter: list_routes keeps exactly the routes whose rendered address does
        not start with "0." or "127."; on a rendered address that is: first octet
        not 0 and not 127.  An iproute2 'default ...' line yields no route at all;
@@ -131,7 +177,8 @@ Proof.
 Qed.
 Print Assumptions c17_filter.
 
-(* (7) The scanner never fails: for EVERY tool output (arbitrary bytes) every
+(* (7) The scanner never fails: for EVERY tool (iproute2, netstat, Windows route,
+       none) and EVERY tool output (arbitrary bytes) every
        line yields a canonical route or is skipped; the advertised list exists,
        every entry is canonical (host bits cleared, width 0..32) and passes the filter. *)
 Theorem c17_skips_garbage : forall t line,
@@ -217,6 +264,24 @@ Example ex_netstat : scan_line route_netstat
   (bs [49;48;46;57;46;56;46;55;32;48;46;48;46;48;46;48;32;50;53;53;46;50;53;53;46;48;46;48;32;85;10]) =
   Ok (Some (mkRoute AF_INET (bs [49;48;46;57;46;48;46;48]) 16%Z)).
 Proof. vm_compute. reflexivity. Qed.
+(* "    192.168.1.0    255.255.255.0         On-link     192.168.1.100    281\r\n" -> 192.168.1.0/24 *)
+Definition ex_win_line : bytes :=
+  bs [32;32;32;32;49;57;50;46;49;54;56;46;49;46;48;32;32;32;32;50;53;53;46;50;53;53;46;50;53;53;46;48;
+      32;32;32;32;32;32;32;32;32;79;110;45;108;105;110;107;32;32;32;32;32;49;57;50;46;49;54;56;46;49;46;49;48;48;
+      32;32;32;32;50;56;49;13;10].
+Example ex_windows : scan_line route_windows ex_win_line =
+  Ok (Some (mkRoute AF_INET (bs [49;57;50;46;49;54;56;46;49;46;48]) 24%Z)).
+Proof. vm_compute. reflexivity. Qed.
+(* "127.0.0.0 255.0.0.0 On-link 127.0.0.1 331\n" (loopback) and
+   "0.0.0.0 0.0.0.0 192.168.1.1 192.168.1.100 25\n" (default route through a gateway): no route *)
+Example ex_windows_skipped :
+  scan_line route_windows (bs [49;50;55;46;48;46;48;46;48;32;50;53;53;46;48;46;48;46;48;32;79;110;45;108;105;110;107;32;
+                               49;50;55;46;48;46;48;46;49;32;51;51;49;10]) = Ok None /\
+  scan_line route_windows (bs [48;46;48;46;48;46;48;32;48;46;48;46;48;46;48;32;49;57;50;46;49;54;56;46;49;46;49;32;
+                               49;57;50;46;49;54;56;46;49;46;49;48;48;32;50;53;10]) = Ok None.
+Proof. vm_compute. split; reflexivity. Qed.
+Example ex_windows_hyps : win_skip (dotted_quad 3232235776) = false /\ spaces (bs [32; 32]) /\ 3232235776 < 2 ^ 32.
+Proof. split; [vm_compute; reflexivity|]. split; [split; [discriminate|reflexivity]|reflexivity]. Qed.
 Example ex_octets_ok : octets_ok [10; 1] /\ ip_of [10; 1] = 167837696.
 Proof. split; [|reflexivity]. split; [discriminate|]. split; [cbn; repeat constructor|repeat constructor]. Qed.
 (* a two-route table plus junk is delivered: started, two networks *)
